@@ -3,6 +3,7 @@ import TypstyleModel.Proofs.Monad
 import TypstyleModel.Proofs.Tokens
 import TypstyleModel.Proofs.EndToEnd
 import TypstyleModel.Proofs.MarkupSeq
+import TypstyleModel.Proofs.Repr
 /-! C08 — prose is left untouched (printer side).  The line representation of a piece of markup
 loses, duplicates and reorders no node; inside a line a space is printed as one blank (never a break),
 a line ends with exactly its number of line feeds, text leaves are copied, and an expression on a line
@@ -10,49 +11,12 @@ that also holds text is converted with breaks suppressed. -/
 namespace Typstyle
 open Pretty
 
-def isWsNode (n : ANode) : Bool := n.kind == .space || n.kind == .parbreak
-
-/-- All nodes of the representation so far, in order. -/
-def reprNodes (acc : List MLine × MLine × Bound) : List ANode := acc.1.flatMap (·.nodes) ++ acc.2.1.nodes
-
-theorem reprStep_keeps (acc : List MLine × MLine × Bound) (node : ANode) :
-    (reprNodes (reprStep acc node)).filter (fun n => !isWsNode n) =
-      (reprNodes acc).filter (fun n => !isWsNode n) ++ (if isWsNode node then [] else [node]) := by
-  obtain ⟨lines, cur, sb⟩ := acc
-  unfold reprStep reprNodes
-  simp only
-  split
-  · rename_i h
-    have : isWsNode node = true := by simp [isWsNode, h]
-    simp [this, List.flatMap_append]
-  · split
-    · rename_i h
-      have : isWsNode node = true := by
-        simp only [Bool.and_eq_true] at h; simp [isWsNode, h.1]
-      simp [this]
-    · split
-      · rename_i h
-        have : isWsNode node = true := by
-          simp only [Bool.and_eq_true] at h; simp [isWsNode, h.1]
-        simp [this, List.flatMap_append]
-      · by_cases hw : isWsNode node = true
-        · simp [hw, List.filter_append]
-          split <;> rfl
-        · simp [hw, List.filter_append]
-          split <;> rfl
-
 /-- T8.1: `collect_markup_repr`'s main loop neither loses, duplicates nor reorders any node that is
 not white space (white space becomes line structure: blanks inside a line, line feeds at its end). -/
 theorem C08_repr_keeps_every_node (children : List ANode) (acc : List MLine × MLine × Bound) :
     (reprNodes (children.foldl reprStep acc)).filter (fun n => !isWsNode n) =
-      (reprNodes acc).filter (fun n => !isWsNode n) ++ children.filter (fun n => !isWsNode n) := by
-  induction children generalizing acc with
-  | nil => simp
-  | cons c cs ih =>
-    simp only [List.foldl_cons]
-    rw [ih, reprStep_keeps, List.append_assoc]
-    congr 1
-    by_cases h : isWsNode c = true <;> simp [h]
+      (reprNodes acc).filter (fun n => !isWsNode n) ++ children.filter (fun n => !isWsNode n) :=
+  repr_keeps_every_node children acc
 
 /-- A paragraph break ends the line with exactly its number of line feeds. -/
 theorem C08_parbreak_keeps_its_line_feeds (lines : List MLine) (cur : MLine) (sb : Bound) (node : ANode)
